@@ -26,6 +26,7 @@ t_TORD == Hdr.tord
 t_OORD == Hdr.oord
 t_REGOPS == Range(Hdr.regops)
 t_VAL == Hdr.val
+t_VALT == Hdr.valt
 t_PREC == "1000000000000000000"
 t_U64 == "18446744073709551616"
 t_EPOCH0 == Hdr.epoch0
